@@ -84,6 +84,7 @@ type violation struct {
 	Repro    int      `json:"reproduced"`
 	Trace    []string `json:"trace,omitempty"`
 	Case     int      `json:"case,omitempty"`
+	Mem      []string `json:"mem_points,omitempty"`
 	// added by vcheck
 	Property string `json:"property,omitempty"`
 	Harness  string `json:"harness,omitempty"`
